@@ -48,6 +48,7 @@ type Contract struct {
 	Trusted     bool // body not verified: contract assumed (externals, unsafe code)
 	Inline      bool // callers inline the body even though a contract exists
 	NoInline    bool // never inline: callers use contract or havoc
+	Dispatch    bool // interface method: resolved per call by case split over the module's implementing types
 	ParamNames  []string
 	Asserts     []*Clause // (unused)
 	Regions     []*Region
@@ -116,7 +117,7 @@ func newSpecs() *Specs {
 	return &Specs{Contracts: map[string]*Contract{}, Pures: map[string]*PureFn{}, Lemmas: map[string]*Lemma{}}
 }
 
-var keywordRe = regexp.MustCompile(`^(package|func|requires|ensures|modifies|loop|trusted|inline|noinline|maypanic|pure|uninterp|lemma|global|region|from|to|params|callsite|opaque|reveal)\b`)
+var keywordRe = regexp.MustCompile(`^(package|func|requires|ensures|modifies|loop|trusted|inline|noinline|dispatch|maypanic|pure|uninterp|lemma|global|region|from|to|params|callsite|opaque|reveal)\b`)
 
 // expandKey turns "(*T).M" / "(T).M" / "F" into the ssa qualified name for pkgPath.
 // Keys that already contain a '/' or a '.' before the first '(' are taken as written.
@@ -387,6 +388,10 @@ func (sp *Specs) ParseFile(path string, defaultPkg string) {
 		case "noinline":
 			if cur != nil {
 				cur.NoInline = true
+			}
+		case "dispatch":
+			if cur != nil {
+				cur.Dispatch = true
 			}
 		case "maypanic":
 			if cur != nil {
